@@ -250,8 +250,11 @@ pub fn rand_fault(rng: &mut Rng, horizon: usize) -> FaultPlan {
 pub fn gen_cfg(rng: &mut Rng, p: &Profile) -> CaseCfg {
     let will = rng.chance(p.will_pct, 100).then(|| {
         let (mut props, _) = rand_publish_props(rng);
-        // Will Delay Interval is legal on a will, but see known findings: not generated here
         props.retain(|p| !matches!(p, Prop::PayloadFormat(1)));
+        // Will Delay Interval, the one property only a will may carry
+        if rng.chance(1, 3) {
+            props.push(Prop::WillDelay(*rng.pick(&[0u32, 5, 65536, u32::MAX])));
+        }
         WillSpec {
             topic: rand_topic(rng, 20),
             payload: { let n = rng.below(20); rng.bytes(n) },
@@ -716,6 +719,9 @@ impl Gen {
                 };
                 Step::Broker(BrokerAct::Send(SPacket::Disconnect { reason, props }))
             }
+            // malformed broker data: random bytes, or a well-formed packet that has no business
+            // on an established connection (a second CONNACK)
+            18 if rng.chance(1, 3) => Step::Broker(BrokerAct::Send(SPacket::ConnAck { sp: rng.chance(1, 2), reason: *rng.pick(&[0u8, 0, 0x80]), props: vec![] })),
             18 => Step::Broker(BrokerAct::SendRaw({ let n = rng.range(1, 10); rng.bytes(n) })),
             19 => Step::Advance(*rng.pick(&[1u64, 1000, 1_000_000, 30_000_000])),
             20 => Step::Io { policy: Some(rand_policy(rng, true)), faults: vec![] },
